@@ -207,6 +207,15 @@ def handleF : List String → Option String
       let g := trs2llh E ⟨x, y, z⟩
       pure (showM3 (trs2enu g.lat g.lon))
     | _ => none
+  | "frameP" :: hasf :: rest => do
+    -- the frame of an observer on an ellipsoid given by its *parameters* (a user-built ellipsoid: semi-major axis and,
+    -- when `hasf` is 1, inverse flattening): trs2enu (9 numbers), then lat lon h of the model's trs2llh
+    match ← parseAll? (α := Float) rest with
+    | [a, finv, x, y, z] =>
+      let E : Ellipsoid Float := ⟨a, if hasf == "1" then some finv else none⟩
+      let g := trs2llh E ⟨x, y, z⟩
+      pure s!"{showM3 (trs2enu g.lat g.lon)} {Wire.render g.lat} {Wire.render g.lon} {Wire.render g.h}"
+    | _ => none
   | "trs2acr" :: rest => do
     match ← parseAll? (α := Float) rest with
     | [x, y, z, vx, vy, vz] => pure (showM3 (trs2acr ⟨x, y, z⟩ ⟨vx, vy, vz⟩))
